@@ -2,6 +2,7 @@ package main
 
 import (
 	"fmt"
+	"strings"
 	"time"
 
 	"github.com/basecomplextech/spec/zzverif/seqmc/refcodec"
@@ -57,8 +58,14 @@ func c02(a *vlib.Args) {
 	if a.Replay != "" {
 		var rp c02replay
 		vlib.LoadReplay(a.Replay, &rp)
-		in := vlib.UnHex(rp.Input)
-		c.try(in, "replay")
+		if strings.HasPrefix(rp.Input, "deep:") {
+			var depth, ms int
+			fmt.Sscanf(rp.Input, "deep:%d:%d", &depth, &ms)
+			c.deepNesting(depth, ms, 900*time.Second)
+		} else {
+			in := vlib.UnHex(rp.Input)
+			c.try(in, "replay")
+		}
 		for _, v := range r.Violations {
 			fmt.Println("replay:", v.Sig)
 		}
